@@ -220,13 +220,21 @@ def correspondence(spec, items, shard_size=400):
 			fd.write('Definition cases := [\n%s\n].\n' % ';\n'.join(t for _, t in shard))
 			fd.write('Eval vm_compute in (bad_indices %s cases).\n' % spec.COQ_CHECK)
 		jobs.append((k, path))
-	bad, errors = [], []
+	bad, errors, again = [], [], []
 	with ThreadPoolExecutor(max_workers=NPROC) as ex:
 		for k, idxs, err in ex.map(run_shard, jobs):
 			if idxs is None:
-				errors.append('shard %d: %s' % (k, err))
+				again.append((k, err))
 			else:
 				bad.extend(shards[k][i][0] for i in idxs)
+	# a shard whose coqc did not produce a result (killed by the kernel's OOM killer or the time limit on a crowded machine, or a Coq error)
+	# is evaluated once more, alone; a deterministic failure fails again and is reported as a broken tie
+	for k, err in again:
+		k2, idxs, err2 = run_shard(jobs[k])
+		if idxs is None:
+			errors.append('shard %d: %s' % (k, err2 or err))
+		else:
+			bad.extend(shards[k][i][0] for i in idxs)
 	return sorted(bad), errors
 
 
